@@ -16,41 +16,7 @@ From TC.Model Require Export VErr.
 From TC.Run Require Import RunLib.
 Import ListNotations.
 
-(* ---------- how the harness built a tree ---------- *)
-Inductive bexp :=
-| BNew (ctx msg : string) (isw : bool)                                   (* NewValidationError *)
-| BErrs (errs : option nat) (kids : option (list (string * bexp)))       (* NewValidationErrors *)
-| BWW (errs warns : option nat) (kids : option (list (string * bexp))).  (* NewValidationErrorsWithWarnings *)
-(* [option nat]: nil or the index of a caller-made map in the case's initial heap (the same index may be
-   used several times: the same map object) *)
-
-Section BuildList.
-  Variable rec : bexp -> heap -> ve * heap.
-  Fixpoint build_list (l : list (string * bexp)) (h : heap) : list (string * ve) * heap :=
-    match l with
-    | [] => ([], h)
-    | (k, b) :: r => let '(t, h1) := rec b h in
-                     let '(r', h2) := build_list r h1 in ((k, t) :: r', h2)
-    end.
-End BuildList.
-
-Fixpoint build (b : bexp) (h : heap) {struct b} : ve * heap :=
-  match b with
-  | BNew c m w => new_validation_error c m w h
-  | BErrs e ks =>
-      let '(ks', h1) := match ks with
-                        | None => (None, h)
-                        | Some l => let '(l', h1) := build_list build l h in (Some l', h1)
-                        end in
-      new_validation_errors e ks' h1
-  | BWW e w ks =>
-      let '(ks', h1) := match ks with
-                        | None => (None, h)
-                        | Some l => let '(l', h1) := build_list build l h in (Some l', h1)
-                        end in
-      new_validation_errors_with_warnings e w ks' h1
-  end.
-
+(* how the harness built a tree: [bexp] / [build] of Model/VErr.v (nested constructor calls) *)
 Inductive earg := ANil | ANilPtr | APlain (s : string) | AVE (b : bexp) | AWrap (s : string) (a : earg).
 
 Fixpoint build_earg (a : earg) (h : heap) : err * heap :=
